@@ -350,7 +350,11 @@ func TestC11(t *testing.T) {
 				del := &notiftypes.MsgDeleteNotification{Creator: accs[rapid.IntRange(0, 4).Draw(rt, "inboxOwner")].Bech, From: accs[rapid.IntRange(0, 4).Draw(rt, "sender")].Bech,
 					Time: rapid.SampledFrom([]int64{0, 0, -1, 1}).Draw(rt, "timeStamp")}
 				if ns := w.c.App.NotificationsKeeper.GetAllNotifications(w.f.Ctx); len(ns) > 0 && rapid.Bool().Draw(rt, "existingTime") {
-					del.Time = ns[rapid.IntRange(0, len(ns)-1).Draw(rt, "whichTime")].Time
+					n := ns[rapid.IntRange(0, len(ns)-1).Draw(rt, "whichTime")]
+					del.Time = n.Time
+					if rapid.IntRange(0, 2).Draw(rt, "pathLikeFrom") == 0 { // the sender field is a free string
+						del.From = rapid.SampledFrom([]string{"../" + n.To + "/" + n.From, "../../" + n.To + "/" + n.From, n.From + "/../../" + n.To + "/" + n.From}).Draw(rt, "from")
+					}
 				}
 				m = del
 			}
